@@ -84,12 +84,12 @@ tiling's records, the clock has seen exactly their timestamps. -/
 theorem recovery_of_tiled_image_succeeds {img : Image} {v total dev : Nat} {o : Opts} {journal : List (Nat × Nat)}
     {info : Gen → RecMeta} {d : Disk} {L : List Rec} (hro : o.readOnly = false)
     (hrep : Rep img v FEOX_DATA_START_BLOCK total info d) (ht : TiledBy d total L FEOX_DATA_START_BLOCK)
-    (hd0 : 0 < dev) (htot : dev / FEOX_BLOCK_SIZE = total) (h64 : total < 2 ^ 64) :
+    (hd0 : 0 < dev) (htot : dev / FEOX_BLOCK_SIZE = total) (h64 : total < 2 ^ 64) (hds : FEOX_DATA_START_BLOCK ≤ total) :
     ∃ st', scan img v total o journal FEOX_DATA_START_BLOCK { fsm := Feox.Fsm.setDeviceSize Feox.Fsm.new dev } = .ok st' ∧
       st'.live = L.foldl (fun lv r => absorbLive lv (liveOf info r)) [] ∧
       st'.clock = L.map (fun r => ((info r.2.1).key, (info r.2.1).ts)) := by
-  obtain ⟨st', hst'⟩ := scan_rep_tiled_ok (o := o) (journal := journal) hro hrep hd0 htot h64
-    (total - FEOX_DATA_START_BLOCK) FEOX_DATA_START_BLOCK L _ (Nat.le_refl _) (Nat.le_refl _) ht (scanInv_init dev total)
+  obtain ⟨st', hst', _⟩ := scan_rep_tiled_ok (o := o) (journal := journal) hro hrep hd0 htot h64
+    (total - FEOX_DATA_START_BLOCK) FEOX_DATA_START_BLOCK L _ (Nat.le_refl _) (Nat.le_refl _) ht (scanInv_init dev total hds)
   have hgo := scan_rep_tiled (o := o) (journal := journal) hro hrep (total - FEOX_DATA_START_BLOCK) FEOX_DATA_START_BLOCK L
     { fsm := Feox.Fsm.setDeviceSize Feox.Fsm.new dev } (Nat.le_refl _) (Nat.le_refl _) ht
   rw [hst'] at hgo
